@@ -24,9 +24,17 @@ EI_NOTE = ("trusted: pyvc executor/encoding, z3/cvc5; hooks modelled as oracles 
            "BaseException-only exceptions pass through by design; partial correctness (termination / F9 hang not covered)")
 
 PROPS["C05"] = dict(
-    level="proof", contracts=["contracts.extract_iter", "contracts.c13"],
+    level="other", contracts=["contracts.extract_iter", "contracts.c13"],
     unit_filter=lambda u: u.name in ("C05.extract_iter", "C13.extract_child", "C13.extract"),
-    legs=[dict(name="c05_faults", cmd="PYTHONPATH={repo} " + PY312 + " legs/c05_faults.py")], technique=TECH,
+    legs=[dict(name="c05_faults", cmd="PYTHONPATH={repo} " + PY312 + " legs/c05_faults.py")], technique=TECH + "; bounded fault-enumeration leg",
+    explanation="Deductive part (all inputs, unbounded): extract_iter (whole real body, 8 loops cut by invariants), extract_child and extract "
+                "are executed symbolically from their entries: no path lets an Exception escape, the error ledger grows by exactly the "
+                "exceptions raised in order, extract_child turns it into None / the single error / an ExceptionGroup, an elaborate_frame "
+                "fault keeps and un-hides the frame. RESIDUE the contracts do not carry: that an error recorded in a NESTED stack (a "
+                "context's inner_stack, a child) stays reachable from the result tree. It does not always: fill_context drops the inner "
+                "stack of a generator-based manager when its registered unwrapper succeeds (known finding F11, reported by the leg and "
+                "suppressed by its witness key only). The bounded leg enumerates every single fault at every dynamic hook invocation in 6 "
+                "scenarios plus bounded pairs and checks retrievability by identity over the whole result tree.",
     claim="extract_iter (whole real body, all 8 loops cut by invariants), extract_child and extract are executed symbolically from their "
           "entries: no path lets an Exception escape (every hook call site is inside a handler that records it; every pop/index/unpack/"
           "assert is safe); the error ledger clause shows save_errors grows by exactly the exceptions raised, in order, and extract_child "
@@ -34,9 +42,15 @@ PROPS["C05"] = dict(
           "'identical to the fault-free extraction' is covered only through the per-iteration step clauses (C10) plus append-only frames.",
     note=EI_NOTE + "; formatting of the result after a fault is C18/C19's subject")
 PROPS["C10"] = dict(
-    level="proof", contracts=["contracts.extract_iter", "contracts.small_units"],
+    level="other", contracts=["contracts.extract_iter", "contracts.small_units"],
     unit_filter=lambda u: u.name in ("C05.extract_iter", "C10.frame_iterator_next"),
-    legs=[dict(name="c10_model", cmd="PYTHONPATH={repo} " + PY312 + " legs/c10_model.py")], technique=TECH,
+    legs=[dict(name="c10_model", cmd="PYTHONPATH={repo} " + PY312 + " legs/c10_model.py")], technique=TECH + "; bounded reference-interpreter leg",
+    explanation="Deductive part (all queue contents and hook results, unbounded): the per-iteration step clauses C10.step.* (head frame "
+                "yielded; None keeps the rest; move-back in order; replace form = dropWhile by depth; insert form drops nothing and omits the "
+                "trailing next_inner with the depth rule; push at the frame's depth in order; unwrap step bookkeeping) and the guard <= 100. "
+                "RESIDUE: the induction over iterations that turns the step clauses into 'frames / leaf equal the reference interpretation' "
+                "is argued in DESIGN.md, not machine-checked, and termination is not proved (F9). The bounded leg compares the real "
+                "extraction with a reference interpreter of the documented rules on 600 (4 000) random item trees.",
     claim="Step refinement of the documented rules by the two-deque loop, proved per outer iteration for all queue contents and hook results: "
           "the head frame is yielded; None keeps the rest; otherwise the queue is moved back in order, the replace form drops exactly the "
           "longest prefix with depth >= the frame's depth (dropWhile), the insert form drops nothing and omits the trailing next_inner, "
